@@ -16,7 +16,7 @@ FT = {
     "Item.id": ("ItemFields", "id"), "Item.displayName": ("ItemFields", "display_name"),
     "Item.createdAt": ("ItemFields", "created_at"), "Item.owner": ("ItemFields", "owner"),
     "Item.related": ("ItemFields", "related"), "Person.id": ("PersonFields", "id"),
-    "Person.fullName": ("PersonFields", "full_name"), "Person.items": ("PersonFields", "items"),
+    "Person.fullName": ("PersonFields", "full_name"), "Person.items": ("PersonFields", "items"), "Person.avatar": ("PersonFields", "avatar"),
     "Node.id": ("NodeInterface", "id"),
 }
 ATTRS = {"Item.id", "Item.displayName", "Item.createdAt", "Person.id", "Person.fullName", "Node.id"}
@@ -34,6 +34,7 @@ def argvals(pkg, f, i, given):
         "Query.node": [("id", "id", f"nid-{i}", f"nid-{i}", True)],
         "Item.related": [("firstN", "first_n", 200 + i, 200 + i, False),
                          ("filter", "filter", Filter(name_like=f"r{i}", color=Color.GREEN), {"nameLike": f"r{i}", "color": "GREEN"}, False)],
+        "Person.avatar": [("size", "size", 300 + i, 300 + i, True), ("format", "format", f"fmt{i}", f"fmt{i}", False)],
         "Person.items": [("ids", "ids", [f"p{i}"], [f"p{i}"], True), ("since", "since", f"2020-01-{10 + i}", f"2020-01-{10 + i}", False)],
     }
     out = []
